@@ -11,7 +11,7 @@ from simkit.core import HarnessError
 
 PROP = "C17"
 LEVEL = "exploration"
-TIERS = {"quick": dict(runs=12000, wall=600, chunk=250), "thorough": dict(runs=600000, wall=5400, chunk=500)}
+TIERS = {"quick": dict(runs=12000, wall=1400, chunk=250), "thorough": dict(runs=600000, wall=5400, chunk=500)}
 TIME_UNIT = "operations (rename/reload/query/disassemble) -- no clock in the code under test"
 RULE = ("one evaluation = one seeded history of rename/reload/query/disassemble operations on one DEX object, checked "
         "against a dictionary model of current names; distinct = distinct event-log digests; non-trivial = the history "
